@@ -153,17 +153,21 @@ func init() {
 			world   string
 			T, K, B int
 		}
-		worldsQ := []wr{{"pay", 2, 2, 2}, {"coin", 2, 2, 2}}
-		worldsT := []wr{{"pay", 3, 2, 3}, {"coin", 3, 2, 3}}
+		// quick: one block of up to two transactions in the two widest transaction worlds, short
+		// histories in the staking / order-book worlds, and the worlds with more than 100 candidates
+		// (the structures whose iteration order matters are the ones with many entries)
+		worldsQ := []wr{{"pay", 2, 2, 1}, {"coin", 2, 2, 1}, {"stake", 1, 1, 2}, {"book", 1, 1, 2}, {"stakemany", 1, 1, 2}, {"stakemanytie", 1, 1, 2}}
+		worldsT := []wr{{"pay", 3, 2, 3}, {"coin", 3, 2, 3}, {"stake", 2, 2, 2}, {"book", 2, 2, 2}, {"pool", 2, 2, 2}, {"stakemany", 2, 1, 3}, {"stakemanytie", 2, 2, 3}, {"stakemany102", 1, 1, 3}}
 		var cfgs []c08Config
 		if c.Quick() {
-			for s := 0; s < 16; s++ {
-				cfgs = append(cfgs, c08Config{Seed: s, Procs: []int{1, 16}[s%2], GC: []int{100, 1}[(s/2)%2]})
+			// seed = start bucket << 3 | in-bucket offset: 16 different start buckets, all 8 offsets
+			for i := 0; i < 16; i++ {
+				cfgs = append(cfgs, c08Config{Seed: i*8 + i%8, Procs: []int{1, 16}[i%2], GC: []int{100, 1}[(i/2)%2]})
 			}
 		} else {
-			for s := 0; s < 64; s++ {
+			for i := 0; i < 64; i++ {
 				for _, p := range []int{1, 16} {
-					cfgs = append(cfgs, c08Config{Seed: s, Procs: p, GC: []int{100, 1}[s%2]})
+					cfgs = append(cfgs, c08Config{Seed: i*8 + (i+i/8)%8, Procs: p, GC: []int{100, 1}[i%2]})
 				}
 			}
 			worldsQ = worldsT
